@@ -340,10 +340,13 @@ ExchangeOK(c) ==
   /\ conns[c].st = "busy" /\ conns[c].wire # << >> /\ ~conns[c].cut
   /\ LET r == conns[c].cur[1]  i == conns[c].cur[2]  resp == Head(conns[c].wire)  mine == resp.for = <<r, i>> IN
        /\ rq' = Resolve(r, i, IF mine THEN "ok" ELSE "fail", IF mine THEN resp ELSE << >>)
-       /\ IF r = 0 /\ disc.pc = "sent"
+       /\ IF conns[c].cur = <<0, 1>> /\ disc.pc = "sent"
             THEN disc' = [disc EXCEPT !.pc = "got", !.meta = IF mine THEN resp.meta ELSE NoSnap, !.ok = mine]
             ELSE UNCHANGED disc
-       /\ IF mine /\ ~conns[c].gclosed
+       \* releaseConn refuses a connection whose group was closed (pool dropped, broker gone or re-addressed): conn.run ends, the connection is closed
+       /\ IF Bug = "leakOnClosedGroup" /\ conns[c].gclosed
+            THEN conns' = [conns EXCEPT ![c].st = "leaked", ![c].cur = <<0, 0>>] /\ UNCHANGED pool
+            ELSE IF mine /\ ~conns[c].gclosed
             THEN /\ conns' = [conns EXCEPT ![c].st = "idle", ![c].cur = <<0, 0>>, ![c].wire = Tail(@)]
                  /\ pool' = [pool EXCEPT !.idle[conns[c].grp] = Append(@, c)]
             ELSE /\ conns' = [conns EXCEPT ![c].st = "dead", ![c].cur = <<0, 0>>, ![c].failed = ~mine]
@@ -357,7 +360,7 @@ ExchangeFail(c) ==
   /\ LET r == conns[c].cur[1]  i == conns[c].cur[2] IN
        /\ rq' = Resolve(r, i, "fail", << >>)
        \* (an unanswered or lost metadata refresh is an error for update(); the discover loop goes on)
-       /\ IF r = 0 /\ disc.pc = "sent"
+       /\ IF conns[c].cur = <<0, 1>> /\ disc.pc = "sent"
             THEN disc' = [disc EXCEPT !.pc = IF Bug = "stopOnRefreshTimeout" THEN "stopped" ELSE "got", !.ok = FALSE]
             ELSE UNCHANGED disc
        /\ IF Bug = "releaseOnFail" /\ ~conns[c].gclosed
@@ -647,6 +650,11 @@ C06t_NoReuseAfterFailure ==
 C06t_DeadStaysDead ==
   [][\A c \in Conns : (Hist /\ conns[c].st = "dead") => conns'[c].st = "dead"]_vars
 
+\* C09 (Transport part): a connection that was busy when its group was closed is closed when its exchange is over
+\* (it never stays behind, neither idle nor with its goroutine waiting for a request that cannot come)
+C09t_ClosedPoolConnsClose ==
+  \A c \in Conns : (conns[c].st # "leaked") /\ (conns[c].st = "idle" => ~conns[c].gclosed)
+
 \* C09 (Transport part): once its context ended a blocked round trip can return at once
 C09t_CancelPrompt ==
   \A r \in Reqs : (rq[r].cancelled # "no" /\ rq[r].pc \in {"wait", "run", "refresh"})
@@ -658,7 +666,7 @@ C12_RefreshWithinTTL == [](<>(SnapVer = cl.ver))
 L_Terminates == \A r \in Reqs : [](rq[r].pc \in {"wait", "run"} => <>(rq[r].pc \in {"done", "refresh"}))
 
 TypeOK ==
-  /\ \A c \in Conns : conns[c].st \in {"none", "connecting", "idle", "busy", "dead"}
+  /\ \A c \in Conns : conns[c].st \in {"none", "connecting", "idle", "busy", "dead", "leaked"}
   /\ \A g \in Groups : \A k \in DOMAIN pool.idle[g] : conns[pool.idle[g][k]].st = "idle" /\ conns[pool.idle[g][k]].grp = g
   /\ \A c \in Conns : conns[c].st = "idle" => \E k \in DOMAIN pool.idle[conns[c].grp] : pool.idle[conns[c].grp][k] = c
 =============================================================================
